@@ -3,6 +3,8 @@ package props
 import (
 	"bytes"
 	"fmt"
+	naslog "free5gclib/nas/logger"
+	"github.com/sirupsen/logrus"
 	"hash/fnv"
 	"net"
 
@@ -169,6 +171,33 @@ func runC17(ctx *Ctx) {
 			r.Violate("IPAddress/panic/"+kind, cs, perr.Error(), nil)
 		}
 	})
+	if ctx.Lead() {
+		// one sequential history of pairs whose texts coincide when concatenated, overlap or swap roles (anything that
+		// remembers results by a key derived from the two arguments without keeping them apart shows here)
+		lq := r.Local()
+		pairs := [][2]string{{"10.0.0.1", "1::1"}, {"10.0.0.11", "::1"}, {"10.0.0.1", "1::1"}, {"192.168.61.3", ""}, {"", "192.168.61.3"}, {"192.168.61.3", "192.168.61.3"},
+			{"1.2.3.4", "5::6"}, {"1.2.3.45", "::6"}, {"1.2.3.4", ""}, {"", "1.2.3.4"}, {"", "::1.2.3.4"}, {"1.2.3.4", "::"}, {"", "::"}, {"0.0.0.0", ""}, {"", "0.0.0.0"}, {"10.0.0.11", "::1"}}
+		for i, pq := range pairs {
+			var want []byte
+			if pq[0] != "" {
+				want = append(want, net.ParseIP(pq[0]).To4()...)
+			}
+			if pq[1] != "" {
+				want = append(want, net.ParseIP(pq[1]).To16()...)
+			}
+			cs := fmt.Sprintf("history step %d: IPAddressToNgap(%q, %q)", i, pq[0], pq[1])
+			if perr := recoverErr(func() {
+				t := ngapConvert.IPAddressToNgap(pq[0], pq[1])
+				lq.Case(cs, true, fmt.Sprintf("%x", t.Value.Bytes))
+				if int(t.Value.BitLength) != 8*len(want) || !bytes.Equal(t.Value.Bytes, want) {
+					r.Violate("IPAddressToNgap/value-depends-on-earlier-calls", cs, fmt.Sprintf("got %x/%d want %x", t.Value.Bytes, t.Value.BitLength, want), nil)
+				}
+			}); perr != nil {
+				r.Violate("IPAddress/panic/history", cs, perr.Error(), nil)
+			}
+		}
+		lq.Merge()
+	}
 	r.Sample("IPAddressToNgap(10.45.0.2, 2001:db8::1) -> 160-bit string -> IPAddressToString")
 	if ctx.Thorough {
 		// every IPv4 address (2^32): octets, bit length and the inverse
@@ -209,8 +238,17 @@ func runC17(ctx *Ctx) {
 	}
 	nu := len(units)
 	total := 1 + nu + nu*nu + nu*nu*nu
+	// the lists of up to two units are converted a second time with the conversion logger at its most verbose level
+	// (output discarded): what a conversion returns must not depend on how much it logs
+	verboseFrom := total
+	total += 1 + nu + nu*nu
 	ParallelFor(r, total, func(l *report.Local, i int) {
 		var list []unit
+		if i >= verboseFrom {
+			i -= verboseFrom
+			naslog.ConvertLog.Logger.SetLevel(logrus.TraceLevel)
+			defer naslog.ConvertLog.Logger.SetLevel(logrus.PanicLevel)
+		}
 		switch {
 		case i == 0:
 		case i < 1+nu:
